@@ -231,6 +231,25 @@ func runC15(c *kernel.Ctx) {
 	if c.Params["tier"] == "thorough" {
 		torn = 5
 	}
+	if c.Params["campaign"] == "memtable" || (c.Params["tier"] == "thorough" && c.Params["campaign"] == "" && t.Chance(1, 10)) {
+		// memtable-crossing campaign: fill badger's 64 MiB memtable so that the crash
+		// points of this run lie on both sides of a flush to an SST + manifest update
+		bulk := 1040 + t.Choose(60)
+		c.Logf("memtable campaign: %d bulk stores of 60 KB first", bulk)
+		for i := 0; i < bulk; i++ {
+			seq++
+			ch := []string{"a", "b"}[i%2]
+			payload := append(bytes.Repeat([]byte{byte('A' + seq%26)}, 60000), []byte(fmt.Sprintf("#%d", seq))...)
+			m := message.New(message.Ssid(model.Ssid(77, []string{ch})), []byte(ch+"/"), payload)
+			m.TTL = 86400
+			if err := st.Store(m); err != nil {
+				c.Failf("lost", "store-error", "Store returned an error: %v", err)
+			}
+			acked = append(acked, &c15Msg{id: append(message.ID(nil), m.ID...), ch: ch + "/", payload: payload, ttl: m.TTL, seq: seq})
+		}
+		c.Probe("memtable-campaign")
+		cycles = 1
+	}
 	for cy := 0; cy < cycles; cy++ {
 		stores := t.Range(1, 12)
 		for i := 0; i < stores && !t.Exhausted(); i++ {
